@@ -147,6 +147,25 @@ def run (purgeEmptySystem : Bool) : List Diff → St → Option St
   | [], s => some s
   | d :: rest, s => (update purgeEmptySystem s d).bind (run purgeEmptySystem rest)
 
+/-- A state update is either accepted (its batch is written) or executed and dropped (`Simulate`,
+a batch closed without `Write`, an update that fails its root check). -/
+inductive DOp where
+  | accept (d : Diff)
+  | dropped (d : Diff)
+
+/-- Histories with dropped updates: a dropped update is computed and its result thrown away. -/
+def runD (purgeEmptySystem : Bool) : List DOp → St → Option St
+  | [], s => some s
+  | .accept d :: rest, s => (update purgeEmptySystem s d).bind (runD purgeEmptySystem rest)
+  | .dropped d :: rest, s =>
+    let _ := update purgeEmptySystem s d
+    runD purgeEmptySystem rest s
+
+def accepted : List DOp → List Diff
+  | [] => []
+  | .accept d :: rest => d :: accepted rest
+  | .dropped _ :: rest => accepted rest
+
 /-- `State.Commitment(protocolVersion)`. -/
 def commitment (pre014 : Bool) (s : St) : HTerm :=
   stateCommitment pre014 (Trie2.hashRoot .pedersen s.ctrie).1 (Trie2.hashRoot .poseidon s.cltrie).1
